@@ -243,6 +243,7 @@ bool Context::isIdentifierType(const Token &identifier, bool global) {
 }
 
 Enum *Context::getEnumElement(const std::string &value, bool global) {
+    if (isCompositeCtx && parent != nullptr) return parent->getEnumElement(value, global);
     for (auto &definition : enums) {
         for (size_t i = 0; i < definition->values.size(); i++) {
             if (definition->values[i] == value) {
@@ -269,6 +270,7 @@ void Context::createCompositeDefinition(CompositeTypeDefinition &&definition) {
 }
 
 const EnumTypeDefinition *Context::getEnumDefinition(const std::string &name, bool global) {
+    if (isCompositeCtx && parent != nullptr) return parent->getEnumDefinition(name, global);
     for (const auto &e : enums) {
         if (e->name == name) return e.get();
     }
@@ -277,6 +279,7 @@ const EnumTypeDefinition *Context::getEnumDefinition(const std::string &name, bo
 }
 
 const PointerTypeDefinition *Context::getPointerDefinition(const std::string &name, bool global) {
+    if (isCompositeCtx && parent != nullptr) return parent->getPointerDefinition(name, global);
     for (const auto &p : pointers) {
         if (p->name == name) return p.get();
     }
@@ -285,6 +288,7 @@ const PointerTypeDefinition *Context::getPointerDefinition(const std::string &na
 }
 
 const CompositeTypeDefinition *Context::getCompositeDefinition(const std::string &name, bool global) {
+    if (isCompositeCtx && parent != nullptr) return parent->getCompositeDefinition(name, global);
     for (const auto &c : composites) {
         if (c->name == name) return c.get();
     }
